@@ -5,6 +5,7 @@ import L4.Matchers.Wireguard
 import L4.Matchers.More
 import L4.Gen.Census
 import L4.Proofs.Rdp
+import L4.Proofs.Winbox
 /-!
 # C04 — No remote input makes a matcher panic or allocate without bound
 
@@ -238,74 +239,19 @@ theorem http_no_panic (parse : Bytes → Verdict) (hp : ∀ b, parse b ≠ .pani
 
 /-! ## winbox: the chunk loop of `MessageAuth.FromBytes` and the delimiter search of `FromChunks` -/
 open L4.Winbox in
-theorem findDelim_spec (l : Bytes) (k i : Nat) (h : findDelim l k = some i) : k ≤ i ∧ i < k + l.length := by
-  induction l generalizing k with
-  | nil => simp [findDelim] at h
-  | cons x xs ih =>
-    simp only [findDelim] at h
-    split at h
-    · cases h; simp
-    · have := ih (k + 1) h; simp; omega
+theorem findDelim_spec (l : Bytes) (k i : Nat) (h : findDelim l k = some i) : k ≤ i ∧ i < k + l.length :=
+  Winbox.findDelim_spec l k i h
 
 open L4.Winbox in
-theorem fromChunks_safe (chunks : List Chunk) : (fromChunks chunks).isPanic = false := by
-  unfold fromChunks
-  split
-  · rfl
-  · simp only []
-    split
-    · rfl
-    · rename_i i hi
-      have hb := findDelim_spec _ _ _ hi
-      split
-      · rfl
-      · rename_i hne
-        rw [slice_ok _ 0 i _ (by omega) (by omega), Res.bind_ok,
-          slice_ok _ (i + 1) _ _ (by omega) (by omega), Res.bind_ok, idx_ok _ _ _ (by omega), Res.bind_ok]
-        split <;> rfl
+theorem fromChunks_safe (chunks : List Chunk) : (fromChunks chunks).isPanic = false := Winbox.fromChunks_safe chunks
 
 open L4.Winbox in
 theorem chunkLoop_safe (src : Bytes) (q f i : Nat) (acc : List Chunk)
     (hq : ∀ j, j < q → j * (l4winbox_MessageChunkBytesMax + 2) < src.length) :
-    (chunkLoop src q f i acc).isPanic = false := by
-  induction f generalizing i acc with
-  | zero => rfl
-  | succ f ih =>
-    unfold chunkLoop
-    split
-    · rfl
-    · rename_i hi
-      have hp := hq i (by omega)
-      simp only []
-      rw [idx_ok _ _ _ hp, Res.bind_ok]
-      split
-      · rfl
-      · rename_i hc
-        have hlen : i * (l4winbox_MessageChunkBytesMax + 2) + 2 + (src[i * (l4winbox_MessageChunkBytesMax + 2)]).toNat ≤ src.length := by
-          simp only [not_or] at hc; omega
-        rw [idx_ok _ _ _ (by omega), Res.bind_ok]
-        split
-        · rfl
-        · rw [slice_ok _ _ _ _ (by omega) hlen, Res.bind_ok]
-          exact ih _ _
+    (chunkLoop src q f i acc).isPanic = false := Winbox.chunkLoop_safe src q f i acc hq
 
 open L4.Winbox in
-theorem fromBytes_safe (src : Bytes) : (fromBytes src).isPanic = false := by
-  unfold fromBytes
-  split
-  · rfl
-  · simp only []
-    have hq : ∀ j, j < (src.length + l4winbox_MessageChunkBytesMax + 1) / (l4winbox_MessageChunkBytesMax + 2) →
-        j * (l4winbox_MessageChunkBytesMax + 2) < src.length := by
-      intro j hj
-      simp only [l4winbox_MessageChunkBytesMax] at hj ⊢
-      omega
-    have h1 := chunkLoop_safe src _ ((src.length + l4winbox_MessageChunkBytesMax + 1) / (l4winbox_MessageChunkBytesMax + 2)) 0 [] hq
-    generalize chunkLoop src _ _ 0 [] = r at h1
-    cases r with
-    | ok c => exact fromChunks_safe c
-    | err _ => rfl
-    | panic _ => simp [Res.isPanic] at h1
+theorem fromBytes_safe (src : Bytes) : (fromBytes src).isPanic = false := Winbox.fromBytes_safe src
 
 /-- witness for the defect repaired by the `fix:` commit: with the old chunk count `q = l/257 + 1` a 257-byte message
 (`FF 06` + 255 bytes) makes the loop index `src[257]` -/
@@ -323,16 +269,31 @@ theorem decideMsg_ne_panic (cfg : Cfg) (r : Res Msg) (h : r.isPanic = false) : d
     all_goals simp
 
 open L4.Winbox in
+theorem afterRead_ne_panic (cfg : Cfg) (hdr got : Bytes) (h0 : Nat) : afterRead cfg hdr got h0 ≠ .panic := by
+  have hd : decideMsg cfg (fromBytes (hdr ++ got)) ≠ .panic := decideMsg_ne_panic cfg _ (Winbox.fromBytes_safe _)
+  unfold afterRead
+  split
+  · simp
+  · split
+    · have hs := Winbox.fromBytes_safe (hdr ++ got.take l4winbox_MessageChunkBytesMax)
+      split
+      · rename_i heq; rw [heq] at hs; simp [Res.isPanic] at hs
+      · split
+        · simp
+        · unfold secondChunk
+          repeat' split
+          all_goals first | exact hd | simp
+      · exact hd
+    · exact hd
+
+open L4.Winbox in
 theorem winbox_total (cfg : Cfg) : Total (matcher cfg) := by
   refine total_of ?_ ?_
   · refine .readFull _ _ fun hdr _ => ?_
     simp only []
     split
     · exact .ret _ (by simp)
-    · refine .readAtLeast _ _ _ fun got _ _ => .ret _ ?_
-      split
-      · simp
-      · exact decideMsg_ne_panic cfg _ (fromBytes_safe _)
+    · refine .readAtLeast _ _ _ fun got _ _ => .ret _ (afterRead_ne_panic cfg _ _ _)
   · refine .readFull _ _ _ (by decide) fun hdr _ => ?_
     simp only []
     split
